@@ -225,7 +225,13 @@ def run(ctx) -> None:
     ctx.visit(np_fn.fq)
     vp, rp = np_fn.params[0], np_fn.params[1]
     reps = [c for c in ast.walk(np_fn.node) if isinstance(c, ast.Call) and isinstance(c.func, ast.Attribute) and c.func.attr == "replace" and len(c.args) == 2]
-    by_ph = {const_str(c.args[0]): c for c in reps}
+    def _cs(fn_, e: ast.AST) -> T.Optional[str]:
+        try:
+            v = prog.fold(fn_.module, e)
+        except AnalysisError:
+            return None
+        return v if isinstance(v, str) else None
+    by_ph = {_cs(np_fn, c.args[0]): c for c in reps}
     ok_v = "{version}" in by_ph and unparse(by_ph["{version}"].args[1]) == vp
     ctx.check("R4", ok_v, "normalize_pattern: {version} -> the configured version pattern",
               "v2patterns.normalize_pattern: {version} is not expanded to the version pattern", f"{[unparse(c) for c in reps]}", loc=np_fn.loc())
@@ -236,7 +242,7 @@ def run(ctx) -> None:
     n1 = prog.function("v1patterns._normalized_pattern")
     ctx.visit(n1.fq)
     reps1 = [c for c in ast.walk(n1.node) if isinstance(c, ast.Call) and isinstance(c.func, ast.Attribute) and c.func.attr == "replace" and len(c.args) == 2]
-    ok1 = any(const_str(c.args[0]) == "{version}" and unparse(c.args[1]) == n1.params[0] for c in reps1)
+    ok1 = any(_cs(n1, c.args[0]) == "{version}" and unparse(c.args[1]) == n1.params[0] for c in reps1)
     ctx.check("R4", ok1, "_normalized_pattern (v1): {version} -> the configured version pattern",
               "v1patterns._normalized_pattern: {version} is not expanded to the version pattern", f"{[unparse(c) for c in reps1][:3]}", loc=n1.loc())
     # compile_pattern goes through the normaliser; config passes the configured version_pattern
